@@ -47,6 +47,7 @@ void harness(void)
 	ctx = MPT_baseaddr(reply_context_defer, mt, _mt);
 	V_CHECK("create: capacity as requested, nothing armed, one reference", ctx->data._max == in_max && ctx->data.len == 0 && ctx->ref._val == 1);
 	V_CHECK("create: converts to its reply context", mt->_vptr->convertable.convert((MPT_INTERFACE(convertable) *) mt, MPT_ENUM(TypeReplyPtr), &rc) >= 0 && rc == &ctx->_ctx);
+	{ MPT_STRUCT(reply_data) *rd_ = 0; V_CHECK("create: converts to its own reply data (where a request id is armed), not to anything else of the context", mt->_vptr->convertable.convert((MPT_INTERFACE(convertable) *) mt, MPT_ENUM(TypeReplyDataPtr), &rd_) >= 0 && rd_ == &ctx->data); }
 	/* arm with an arbitrary request id (marker bit clear: the id codec never produces it) */
 	for (i = 0; i < in_len; i++) in_id[i] = in_id[i];
 	V_REQ((in_id[0] & 0x80) == 0);
